@@ -173,7 +173,11 @@ def check_accessors(ctx, owner, cls, hdr, path, rule):
             continue
         wh = where(g)
         if kind == "const":
-            chk.ok(rule, "const:" + key, None, nontrivial=False)
+            errs = const_errors(ctx, owner, name, tgt, g)
+            if errs:
+                chk.violation(rule, "const:" + key, wh, "schema %s, constant %s: %s" % (ctx.xml(), key, "; ".join(errs)))
+            else:
+                chk.ok(rule, "const:" + key, {"entity": key, "where": wh}, nontrivial=True)
             continue
         try:
             p = lib.summary(g).live[0]
@@ -189,6 +193,13 @@ def check_accessors(ctx, owner, cls, hdr, path, rule):
                             % (show(got) if got is not None else show(p.ret), size, off, "byte-swapped" if ctx.rev and size > 1 else "native order", show(want)))
             if writes(p):
                 errs.append("getter writes to the buffer")
+            if kind == "scalar" and tgt is None and not isinstance(owner, M.Composite):
+                # a field declared with a primitive type name: the wrapper class follows the field's presence
+                fld = [x for x in owner.fields if x.name == name]
+                if fld and prim:
+                    want_t = "sbepp::%s_%st" % (prim, "opt_" if fld[0].presence == "optional" else "")
+                    if rint.clean(g.get("ret", "")) != want_t:
+                        errs.append("getter returns `%s`, a %s field of primitive type %s is `%s`" % (rint.clean(g.get("ret", "")), fld[0].presence, prim, want_t))
             # setter
             st = [f for f in ctx.methods(cls, name) if len(f.get("params") or []) == 1
                   and not (f["params"][0].get("ref"))]
@@ -232,6 +243,76 @@ def check_accessors(ctx, owner, cls, hdr, path, rule):
                           % (ctx.xml(), key, off, kind, prim or "", "; ".join(errs)))
         else:
             chk.ok(rule, "accessor:" + key, {"entity": key, "offset": off, "size": size, "kind": kind, "where": wh})
+
+
+def enum_value_of(ctx, ref):
+    """numeric / character value of `Enum.name` in the model"""
+    en, _, vn = (ref or "").partition(".")
+    for enc in ctx.m.type_order:
+        if isinstance(enc, M.Enum) and enc.name == en:
+            for v in enc.values:
+                if v.name == vn:
+                    prim = enc.encoding_type
+                    for t in ctx.m.type_order:
+                        if isinstance(t, M.Type) and t.name == prim:
+                            prim = t.primitive
+                    return ord(v.value) if prim == "char" else int(v.value)
+    return None
+
+
+def const_errors(ctx, owner, name, tgt, g):
+    """a constant member's getter returns the schema's value: a number, a character, an enumerator (valueRef) or,
+    for character arrays, a view over a literal holding the text padded with NULs to the declared length"""
+    lib = ctx.lib
+    errs = []
+    try:
+        p = lib.summary(g).live[0]
+    except (AnalysisBroken, IndexError, Unsupported) as e:
+        return ["getter not analysable: %s" % str(e)[:80]]
+    fld = None
+    if not isinstance(owner, M.Composite):
+        fl = [x for x in owner.fields if x.name == name]
+        fld = fl[0] if fl else None
+    vref = (getattr(fld, "value_ref", None) if fld is not None else None) or getattr(tgt, "value_ref", None)
+    r = p.ret
+    if writes(p) or reads(p):
+        errs.append("touches the buffer")
+    if vref:
+        want = enum_value_of(ctx, vref)
+        got = value_of(r) if not isinstance(r, Lin) else r
+        if want is None:
+            return errs        # reference not resolvable in the model: nothing to compare
+        if not isinstance(got, Lin) or not got.is_const() or got.k != want:
+            errs.append("returns %s, valueRef %s is %s" % (show(got) if got is not None else show(r), vref, want))
+        return errs
+    if not isinstance(tgt, M.Type) or tgt.const_text is None:
+        return errs
+    text = tgt.const_text
+    if tgt.primitive == "char" and tgt.length != 1 or (tgt.primitive == "char" and len(text.encode("utf-8")) > 1):
+        want = text.encode("utf-8") + b"\0" * (tgt.length - len(text.encode("utf-8")))
+        lits = [n.get("str") for n in walk(g["body"]) if n.get("k") == "StringLiteral"]
+        if not isinstance(r, Obj) or not isinstance(r.get("begin"), Lin) or not isinstance(r.get("end"), Lin):
+            errs.append("does not return an array view")
+        else:
+            ln = r.get("end") - r.get("begin")
+            if not ln.is_const() or ln.k != tgt.length:
+                errs.append("view length %s, declared length %d" % (show(ln), tgt.length))
+        if not lits or lits[0].encode("utf-8", "surrogateescape") != want:
+            errs.append("literal %r, expected %r (text padded with NULs to %d)" % (lits[0] if lits else None, want, tgt.length))
+        return errs
+    got = value_of(r) if not isinstance(r, Lin) else r
+    if tgt.primitive == "char":
+        want = ord(text)
+    elif tgt.primitive in ("float", "double"):
+        return errs            # floating constants are compared by E4.limits-style text rules elsewhere
+    else:
+        try:
+            want = int(text)
+        except ValueError:
+            return errs
+    if not isinstance(got, Lin) or not got.is_const() or got.k != want:
+        errs.append("returns %s, the schema says %s" % (show(got) if got is not None else show(r), want))
+    return errs
 
 
 # ------------------------------------------------------------ cursor accessors
